@@ -1539,8 +1539,8 @@ int main(int argc, char **argv)
   const bool replayOnly = vh::st().onlyCase >= 0;
   vh::Rng r(vh::seed(), 7);
 
+  g_lapT = vh::now();
   if (!replayOnly) {
-    g_lapT = vh::now();
     unaryKernels(full, r);
     lap("unary");
     srgbSweep(full, r);
@@ -1563,7 +1563,12 @@ int main(int argc, char **argv)
 
     definitions(r);
     lap("definitions");
-    distributions(r);
+  }
+  {
+    // own stream, so that "#k" of a distribution finding replays alone (VH_CASE selects pair k here and
+    // forked case k below; both are cheap)
+    vh::Rng rdist(vh::seed(), 23);
+    distributions(rdist);
     lap("distributions");
   }
 
